@@ -293,8 +293,9 @@ Proof.
   destruct (nth_error h d) as [od|] eqn:Ed; [|discriminate].
   destruct (copy_submodels K h (ocells od)) as [[h1 cs']|] eqn:Cs; [|discriminate].
   set (h2 := h1 ++ [mkObj KDict cs']) in *.
-  destruct (init_M h2 c K (linker_iargs h2 K (length h1) (k_linker_name K))) as [[h3 r3] ok] eqn:I.
-  cbn [fst snd] in H. destruct ok; [|discriminate].
+  set (nme := linker_name K o) in *.
+  destruct (init_M h2 c K (linker_iargs h2 K (length h1) nme)) as [[h3 r3] ok] eqn:I.
+  cbn [fst snd] in H. destruct (has_key nme cs'); [discriminate|]. destruct ok; [|discriminate].
   destruct (dc_entries_pol (k_single_memo K) h3 (filter (fun kv => negb (fst kv =? A N_submodels)) (ocells o))) as [[h4 es]|] eqn:E; [|discriminate].
   destruct (nth_error h4 r3) as [o'|] eqn:Eo'; [|discriminate].
   inversion H; subst; clear H.
@@ -305,7 +306,7 @@ Proof.
   assert (C2 : closed_above N h2).
   { apply closed_above_snoc; auto. intros l Hl. assert (N <= l < length h1)%nat by (eapply cells_ok_refs; eauto). lia. }
   assert (L2 : length h2 = S (length h1)) by (unfold h2; rewrite app_length; simpl; lia).
-  assert (IA : iargs_above N (h2 ++ [mkObj (KCont c) []]) (linker_iargs h2 K (length h1) (k_linker_name K))).
+  assert (IA : iargs_above N (h2 ++ [mkObj (KCont c) []]) (linker_iargs h2 K (length h1) nme)).
   { apply linker_iargs_above. rewrite app_length; simpl. fold N in L1. lia. }
   destruct (init_M_spec N _ _ _ _ _ _ _ I W2 ltac:(fold N in L1; lia) C2 IA) as (W3 & C3 & -> & L3 & U3).
   destruct (dc_entries_pol_spec _ N _ _ _ _ E W3 ltac:(fold N in L1; lia) C3) as (X4 & W4 & C4 & K4 & _).
